@@ -1,6 +1,7 @@
 (* C03 — exact search returns precisely the nearest matching documents. *)
 From Coq Require Import ZArith List Sorting.Permutation.
 From Syz Require Import Search SearchProofs.
+Import ListNotations.
 Open Scope Z_scope.
 
 (* The callback `consider` with its bounded heap, folded over the accepted candidates in ANY order
